@@ -1492,6 +1492,43 @@ def instr_sweep(rng: random.Random, thorough: bool = False):
                 add([(mt, mv)], [('MAP', ('SEQ', [('CDR',), ('SOME',)]))])
             add([], [('EMPTY_SET', kt), ('PUSH', T_BOOL, ('bool', True)), ('PUSH', kt, gen_data(rng, kt)), ('UPDATE',)])
             add([], [('EMPTY_MAP', kt, vt), ('PUSH', ('option', vt), ('some', gen_data(rng, vt))), ('PUSH', kt, gen_data(rng, kt)), ('UPDATE',)])
+    # boundary operands of every instruction that has a bound: always run (also in the quick tier)
+    n0 = len(out)
+    for op in ('LSL', 'LSR'):
+        for a in (0, 1, 5, 2 ** 64 + 1):
+            for k in (0, 1, 255, 256, 257, 258):
+                add([(T_NAT, ('int', a)), (T_NAT, ('int', k))], [(op,)])
+    for a, b in ((MUTEZ_MAX, 0), (MUTEZ_MAX, 1), (MUTEZ_MAX - 1, 1), (MUTEZ_MAX // 2 + 1, MUTEZ_MAX // 2), (MUTEZ_MAX // 2 + 1, MUTEZ_MAX // 2 + 1),
+                 (0, 0), (0, 1), (1, 0), (1, 2), (2, 1)):
+        for op in ('ADD', 'SUB_MUTEZ', 'EDIV'):
+            add([(T_MUTEZ, ('mutez', a)), (T_MUTEZ, ('mutez', b))], [(op,)])
+    for a, k in ((MUTEZ_MAX, 1), (MUTEZ_MAX, 2), (MUTEZ_MAX // 2 + 1, 2), (MUTEZ_MAX // 2, 2), (3037000500, 3037000500), (1, 0), (0, 0), (7, 2)):
+        add([(T_MUTEZ, ('mutez', a)), (T_NAT, ('int', k))], [('MUL',)])
+        add([(T_NAT, ('int', k)), (T_MUTEZ, ('mutez', min(a, MUTEZ_MAX)))], [('MUL',)])
+        add([(T_MUTEZ, ('mutez', a)), (T_NAT, ('int', k))], [('EDIV',)])
+    add([], [('PUSH', T_MUTEZ, ('mutez', MUTEZ_MAX))])
+    for txt, ty, mk in (('abc', T_STRING, lambda x: ('str', x)), (b'\x00\x01\x02', T_BYTES, lambda x: ('bytes', x)),
+                        ('', T_STRING, lambda x: ('str', x)), (b'', T_BYTES, lambda x: ('bytes', x))):
+        n = len(txt)
+        for o in sorted({0, max(n - 1, 0), n, n + 1}):
+            for ln in sorted({0, 1, max(n - o, 0), max(n - o, 0) + 1}):
+                add([(T_NAT, ('int', o)), (T_NAT, ('int', ln)), (ty, mk(txt))], [('SLICE',)])
+    for ta in ('int', 'nat'):
+        for tb in ('int', 'nat'):
+            for a, b in ((0, 0), (1, 0), (7, 0), (0, 1), (7, 1), (7, 2), (-7, 2), (7, -2), (-7, -2), (-1, 1), (1, -1)):
+                if (ta == 'nat' and a < 0) or (tb == 'nat' and b < 0):
+                    continue
+                add([((ta,), ('int', a)), ((tb,), ('int', b))], [('EDIV',)])
+    for z in (-1, 0, 1):
+        for op in ('ISNAT', 'ABS', 'NEG', 'EQ', 'NEQ', 'LT', 'GT', 'LE', 'GE', 'NOT'):
+            add([(T_INT, ('int', z))], [(op,)])
+    for a, b in ((0, 0), (0, 1), (1, 0)):
+        add([(T_NAT, ('int', a)), (T_NAT, ('int', b))], [('SUB',), ('ISNAT',)])
+    for n in (0, 1, 2):
+        add([(('list', T_INT), ('list', [('int', i) for i in range(n)]))], [('IF_CONS', ('SEQ', [('DROP', 2), ('PUSH', T_NAT, ('int', 1))]), ('SEQ', [('PUSH', T_NAT, ('int', 0))]))])
+        add([(('list', T_INT), ('list', [('int', i) for i in range(n)]))], [('SIZE',)])
+    for c in out[n0:]:
+        c['must'] = True
     # COMPARE: the deciding component comes AFTER components that are equal and None / Some None / Left on both sides
     O_INT, OO_UNIT = ('option', T_INT), ('option', ('option', T_UNIT))
     cmp_shapes = [
